@@ -83,6 +83,7 @@ var c14Faults = []c14Fault{
 	{"v", "failed tag validator", 500, false},
 	{"w", "failed Validate()", 13, false},
 	{"n", "failed tag validator (required)", 0, false},
+	{"n", "required setting absent", "ABSENT", false},
 	{"s", "unresolvable reference", "${does.not.exist}", true},
 	{"i", "unresolvable reference in a splice", "1${nope}", true},
 	{"s", "cyclic reference", "SELF", true},
@@ -104,11 +105,13 @@ const (
 	buildMergedHalves
 	buildPrependMoved
 	buildAppendMoved
+	buildRemovedInFront
+	buildReattached
 	numC14Builds
 )
 
 func (b c14Build) String() string {
-	return [...]string{"built directly", "merged from two halves", "faulty list element moved by a prepend merge", "faulty list element appended behind existing ones"}[b]
+	return [...]string{"built directly", "merged from two halves", "faulty list element moved by a prepend merge", "faulty list element moved down by a Remove in front of it", "object holding the fault taken with Child and put back with SetChild (no MetaData option)"}[b]
 }
 
 func c14Config(loc string, f *c14Fault, selfPath string) (M, string) {
@@ -147,6 +150,9 @@ func c14Config(loc string, f *c14Fault, selfPath string) (M, string) {
 			obj = full["pl"].(L)[0].(M)
 		}
 		obj[f.Leaf] = val
+		if val == "ABSENT" {
+			delete(obj, f.Leaf)
+		}
 	}
 	return full, path
 }
@@ -205,8 +211,15 @@ func c14Space() *core.Space {
 		Exec: func(i int) core.Result {
 			loc, f, load, build := dec(i)
 			isList := strings.HasPrefix(loc, "lst.") || strings.HasPrefix(loc, "pl.")
-			if (build == buildPrependMoved || build == buildAppendMoved) && !isList {
+			if (build == buildPrependMoved || build == buildAppendMoved || build == buildRemovedInFront) && !isList {
 				return core.Result{Skipped: true}
+			}
+			if build == buildReattached && loc == "" {
+				if _, isM := f.Val.(M); !isM {
+					if _, isL := f.Val.(L); !isL {
+						return core.Result{Skipped: true}
+					}
+				}
 			}
 			var res core.Result
 			pi := core.Guard(func() {
@@ -241,6 +254,42 @@ func c14Space() *core.Space {
 						c2, _, err = c14LoadCfg(h2, load, opts)
 						if err == nil {
 							err = cfg.Merge(c2, opts...)
+						}
+					}
+				case buildRemovedInFront:
+					// one more element in front, removed again after loading
+					key := strings.SplitN(loc, ".", 2)[0]
+					withExtra := M{}
+					for k, v := range data {
+						withExtra[k] = v
+					}
+					withExtra[key] = append(L{c14GoodLeafs()}, data[key].(L)...)
+					if f.Val == "SELF" {
+						// (the reference names the final position)
+						withExtra, _ = c14Config(loc, &f, path)
+						withExtra[key] = append(L{c14GoodLeafs()}, withExtra[key].(L)...)
+					}
+					cfg, src, err = c14LoadCfg(withExtra, load, opts)
+					if err == nil {
+						_, err = cfg.Remove(key, 0, opts...)
+					}
+				case buildReattached:
+					cfg, src, err = c14LoadCfg(data, load, opts)
+					if err == nil {
+						// the deepest object or list holding the fault: the faulty value itself when it
+						// is a list or an object, else the object it is a member of
+						name, idx := strings.TrimSuffix(loc, "."), -1
+						switch f.Val.(type) {
+						case M, L:
+							name = path
+						}
+						if n := len(name); n > 2 && name[n-2] == '.' && name[n-1] >= '0' && name[n-1] <= '9' {
+							name, idx = name[:n-2], int(name[n-1]-'0')
+						}
+						var ch *ucfg.Config
+						ch, err = cfg.Child(name, idx, opts...)
+						if err == nil {
+							err = cfg.SetChild(name, idx, ch, ucfg.PathSep("."))
 						}
 					}
 				case buildPrependMoved, buildAppendMoved:
@@ -309,6 +358,9 @@ func c14Judge(err error, path, src string, allPaths []string, f c14Fault, entry 
 		if p != path && !strings.HasPrefix(path, p+".") && strings.Contains(msg, "'"+p+"'") {
 			return core.Fail(entry, "NAMES-ANOTHER-SETTING "+f.Kind, fmt.Sprintf("fault at '%s', but the message names '%s': %s", path, p, msg))
 		}
+	}
+	if f.Val == "ABSENT" {
+		src = "" // no value has been loaded for an absent setting: naming a source is not demanded
 	}
 	if src != "" && !strings.Contains(msg, "source:'"+src+"'") {
 		return core.Fail(entry, "SOURCE-MISSING "+f.Kind, fmt.Sprintf("loaded from %q, message: %s", src, msg))
